@@ -91,6 +91,9 @@ type regDriver struct {
 	viol      map[string]string // violation class -> detail
 	keyBad    string
 	consulted int  // stored factory consulted during the current op
+	failing   bool // between a failed creation callback and the return of the create method
+	pubCells  map[string]bool   // cells that received a published instance
+	failDel   map[string]string // cells deleted from while failing -> history
 	curEarly  bool // earlyOK of the op being executed
 	trans     int
 }
@@ -215,8 +218,16 @@ func (d *regDriver) Call(ip *absint.Interp, site ssa.CallInstruction, args []abs
 					panic(&absint.Undecided{Msg: "store of a non-token into a cell: " + absint.Show(args[2])})
 				}
 				d.st[cell] = t.ID
+				if strings.HasPrefix(t.ID, "P") {
+					d.pubCells[cell] = true
+				}
 				return nil, true
 			case "Delete":
+				if d.failing {
+					if _, ok := d.failDel[cell]; !ok {
+						d.failDel[cell] = d.hist()
+					}
+				}
 				delete(d.st, cell)
 				return nil, true
 			case "LoadOrStore":
@@ -283,6 +294,7 @@ func (d *regDriver) callback() absint.Value {
 			if op.ok {
 				return absint.Tuple{d.tok(fmt.Sprintf("P%d", d.mon.nCreate)), absint.Nil{}}
 			}
+			d.failing = true
 			return absint.Tuple{absint.Nil{}, d.tok("Xerr")}
 		}
 		d.exec(op)
@@ -365,6 +377,7 @@ func (d *regDriver) exec(op regOp) {
 		n0 := d.mon.nCreate
 		wasPublished := d.mon.published
 		out := d.run("GetSingletonOrCreateByFactory", d.key, d.factoryP)
+		d.failing = false
 		v, e := out.Ret[0], out.Ret[1]
 		vt, isV := isTok(v)
 		_, isE := isTok(e)
@@ -417,7 +430,7 @@ func (d *regDriver) replay() (complete bool) {
 }
 
 func newRegDriver(c *core.Ctx, T *types.Named, ops []regOp) *regDriver {
-	d := &regDriver{c: c, T: T, st: regState{}, ops: ops, viol: map[string]string{}}
+	d := &regDriver{c: c, T: T, st: regState{}, ops: ops, viol: map[string]string{}, pubCells: map[string]bool{}, failDel: map[string]string{}}
 	d.recv = absint.NewTok("r", "recv")
 	d.key = absint.NewTok("name", "key")
 	d.factoryP = absint.NewTok("factory", "factoryParam")
@@ -481,6 +494,7 @@ func c04Explore(c *core.Ctx, r *core.Report, T *types.Named) {
 	seen := map[string]bool{}
 	queue := []node{{nil}}
 	viol := map[string]string{}
+	pubCells, failDel := map[string]bool{}, map[string]string{}
 	states, transitions, histories := 0, 0, 0
 	maxLen := 0
 	var sampleHist []string
@@ -505,6 +519,14 @@ func c04Explore(c *core.Ctx, r *core.Report, T *types.Named) {
 			for k, v := range d.viol {
 				if _, ok := viol[k]; !ok {
 					viol[k] = v
+				}
+			}
+			for cell := range d.pubCells {
+				pubCells[cell] = true
+			}
+			for cell, h := range d.failDel {
+				if _, ok := failDel[cell]; !ok {
+					failDel[cell] = h
 				}
 			}
 			key := d.st.key() + "#" + d.mon.key() + fmt.Sprint("#", complete)
@@ -566,6 +588,13 @@ func c04Explore(c *core.Ctx, r *core.Report, T *types.Named) {
 		}
 		r.Undecided(rule, name+":model", pos, "the registry left the modelled fragment: "+undec)
 		return
+	}
+	// a failed attempt takes away only what it left behind: its clean-up never deletes from the cell that holds
+	// published instances (an overlapping or earlier successful attempt's result would be un-published)
+	for cell, h := range failDel {
+		if pubCells[cell] {
+			viol["A4:failure clean-up deletes from the cell of published instances ("+cell+")"] = h
+		}
 	}
 	r.Exhaustive = true
 	r.Hold("C04.R1", name+":key-discipline", pos, "every cell operation executed in any explored history is keyed by the method's name parameter")
